@@ -16,7 +16,9 @@ BASE = {
     "GenesisPos": {"g1": 10000, "g2": 10000, "g3": 10500, "g4": 11000, "g5": 12000, "g6": 15000, "g7": 20000},
     "Fund": 100000, "Cand": ["p1"], "Authorizers": ["a1", "a2"], "AuthTargets": ["g1", "g7", "p1"], "OpTargets": ["g1", "g7", "p1"],
     "RegPos": [16000], "AuthPos": [1000], "UnAuthPos": [500, 1000], "WdPos": [500, 1000], "InitDelta": [1000],
-    "FeeVals": [100003], "CostVals": [[20, 30]], "MaxVals": [100000], "GasVals": [1], "DappVals": [20],
+    "FeeVals": [100003], "CostVals": [[20, 30]], "MaxVals": [100000], "GasVals": [1],
+    # updateGlobalParam2 <<DappFee, CandidateFeeSplitNum>> / updateGlobalParam <<A, B, CandidateNum>> argument domains; deviations
+    "Param2Vals": [[20, 49]], "ParamVals": [[50, 50, 49]], "CandNum": 49, "Dev": [],
     "Acts": ["Register", "SetMax", "Authorize", "UnAuthorize", "Withdraw", "Quit", "Black", "White", "Commit", "AddInit", "ReduceInit",
              "SetCost", "Fee", "WithdrawFee", "TransferPenalty"],
     "WithInvalid": True, "MaxOps": 3, "Script": [], "GenesisOwners": {},
@@ -84,7 +86,9 @@ G_FeeVals == %s
 G_CostVals == %s
 G_MaxVals == %s
 G_GasVals == %s
-G_DappVals == %s
+G_Param2Vals == %s
+G_ParamVals == %s
+G_Dev == %s
 G_Acts == %s
 G_Script == %s
 =============================================================================
@@ -93,7 +97,8 @@ G_Script == %s
        tset(c["Authorizers"]), tset(c["AuthTargets"]), tset(c["OpTargets"]),
        " ".join(("CASE " if i == 0 else "[] ") + 'p = "%s" -> %d' % (g, v) for i, (g, v) in enumerate(sorted(c["GenesisPos"].items()))),
        c["Fund"], tset(c["RegPos"]), tset(c["AuthPos"]), tset(c["UnAuthPos"]), tset(c["WdPos"]), tset(c["InitDelta"]),
-       tset(c["FeeVals"]), tset(c["CostVals"]), tset(c["MaxVals"]), tset(c["GasVals"]), tset(c["DappVals"]), tset(c["Acts"]),
+       tset(c["FeeVals"]), tset(c["CostVals"]), tset(c["MaxVals"]), tset(c["GasVals"]), tset(c["Param2Vals"]), tset(c["ParamVals"]),
+       tset(c["Dev"]), tset(c["Acts"]),
        tla([act_rec(a) for a in c["Script"]]))
     cfg = """SPECIFICATION Spec
 CONSTANTS
@@ -124,7 +129,11 @@ CONSTANTS
   CostVals <- G_CostVals
   MaxVals <- G_MaxVals
   GasVals <- G_GasVals
-  DappVals <- G_DappVals
+  Param2Vals <- G_Param2Vals
+  ParamVals <- G_ParamVals
+  Dev <- G_Dev
+  CandNum = %d
+  P2Stored = %s
   Authorizers <- G_Authorizers
   AuthTargets <- G_AuthTargets
   OpTargets <- G_OpTargets
@@ -137,16 +146,21 @@ INVARIANTS %s
 PROPERTIES SplitBounded
 CHECK_DEADLOCK FALSE
 """ % (c["K"], c["PosLimit"], c["Penalty"], c["A"], c["B"], c["MinInitStake"], c["MinAuth"], c["DappFee"], c["SplitNum"],
-       tla(c["HasDapp"]), c["GenesisMax"], tla(c["WithInvalid"]), c["MaxOps"], c["invariants"])
+       tla(c["HasDapp"]), c["GenesisMax"], c["CandNum"], tla(p2_stored(c)), tla(c["WithInvalid"]), c["MaxOps"], c["invariants"])
     if edges:
         cfg += "CONSTRAINT XInitOut\nACTION_CONSTRAINT XEdge\n"
     return {"Governance_Gen.tla": mod, "Governance_Gen.cfg": cfg}
 
 
+def p2_stored(c):
+    """the set-up stores a GlobalParam2 record only when the configuration differs from the defaults of getGlobalParam2"""
+    return not (c["MinAuth"] == 500 and c["DappFee"] == 0 and c["SplitNum"] == 49)
+
+
 def harness_cfg(c):
     return {"A": c["A"], "B": c["B"], "penalty": c["Penalty"], "posLimit": c["PosLimit"], "minInitStake": c["MinInitStake"],
-            "minAuthorizePos": 0 if (c["MinAuth"] == 500 and c["DappFee"] == 0 and c["SplitNum"] == 49) else c["MinAuth"],
-            "dappFee": c["DappFee"], "splitNum": c["SplitNum"],
+            "minAuthorizePos": c["MinAuth"] if p2_stored(c) else 0,
+            "dappFee": c["DappFee"], "splitNum": c["SplitNum"], "candidateNum": c["CandNum"],
             "genesisInitPos": [c["GenesisPos"]["g%d" % i] for i in range(1, 8)], "genesisMaxAuthorize": c["GenesisMax"],
             "genesisOwners": [owners(c)["g%d" % i] for i in range(1, 8)],
             "pkorder": ["g1", "g2", "g3", "g4", "g5", "g6", "g7", "p1", "p2"],
@@ -169,6 +183,7 @@ def canon_model(x):
         "attr": {r[0]: r[1:8] for r in x["attr"]},
         "black": sorted(x["black"]),
         "dappFee": x["dappFee"], "hasDapp": x["hasDapp"],
+        "splitNum": x["splitNum"], "pA": x["pA"], "pB": x["pB"], "candNum": x["candNum"],
     }
 
 
@@ -187,11 +202,12 @@ def canon_obs(o):
                  if [v["t"], v["t1"], v["t2"], v["s"], v["s1"], v["s2"], v["max"]] != DEF_ATTR},
         "black": sorted(o["black"]),
         "dappFee": o["dappFee"], "hasDapp": o["hasDapp"],
+        "splitNum": o["splitNum"], "pA": o["pA"], "pB": o["pB"], "candNum": o["candNum"],
     }
 
 
 STAKE_FIELDS = ["pool", "prev", "au", "stake", "pen", "ont", "black"]
-FEE_FIELDS = ["ong", "fee", "splitFee", "attr", "dappFee", "hasDapp"]
+FEE_FIELDS = ["ong", "fee", "splitFee", "attr", "dappFee", "hasDapp", "splitNum", "pA", "pB", "candNum"]
 
 
 def diff(m, r, fields):
@@ -216,7 +232,7 @@ def model_check(ctx, c, timeout=3000):
 
 
 def to_step(a):
-    return {"name": a["name"], "a": a.get("a", ""), "p": a.get("p", ""), "x": a.get("x", 0), "y": a.get("y", 0)}
+    return {"name": a["name"], "a": a.get("a", ""), "p": a.get("p", ""), "x": a.get("x", 0), "y": a.get("y", 0), "z": a.get("z", 0)}
 
 
 def replay(ctx, binary, c, paths, tag):
@@ -401,6 +417,7 @@ def sparse_obs(o):
         "splitFee": c["splitFee"],
         "attr": [[p] + v for p, v in sorted(c["attr"].items())],
         "black": c["black"], "dappFee": c["dappFee"], "hasDapp": c["hasDapp"],
+        "splitNum": c["splitNum"], "pA": c["pA"], "pB": c["pB"], "candNum": c["candNum"],
     }
 
 
@@ -452,7 +469,7 @@ def trace_check(ctx, prop, c, traces, tag):
             if o["res"] == "panic":
                 break
             events.append({"event": "Call", "act": {"name": a["name"], "a": a.get("a", ""), "p": a.get("p", ""), "x": a.get("x", 0),
-                                                    "y": a.get("y", 0), "ok": True},
+                                                    "y": a.get("y", 0), "z": a.get("z", 0), "ok": True},
                            "ok": o["res"] == "ok", "state": sparse_obs(o)})
             index.append((ti, si + 1))
     path = os.path.join(ctx.scratch, "trace-%s.ndjson" % tag)
@@ -487,7 +504,7 @@ def trace_check(ctx, prop, c, traces, tag):
 
 # ------------------------------------------------------------------ the two checks
 def full(a):
-    return {"name": a["name"], "a": a.get("a", ""), "p": a.get("p", ""), "x": a.get("x", 0), "y": a.get("y", 0)}
+    return {"name": a["name"], "a": a.get("a", ""), "p": a.get("p", ""), "x": a.get("x", 0), "y": a.get("y", 0), "z": a.get("z", 0)}
 
 
 C10_PREFIX = [
@@ -524,6 +541,39 @@ C10_DEMOTE_PREFIX = [
 ]
 
 
+# C10, global parameters as state: nine peers in the pool of the previous view (g1..g7, p1 with a holder, p2), the gas address set,
+# income waiting; then free: updateGlobalParam2 (CandidateFeeSplitNum below / equal to / above the pool size, = K, < K; DappFee),
+# updateGlobalParam (A / B / CandidateNum), commitDpos, withdrawFee
+C10_PARAMS_PREFIX = [
+    {"name": "Register", "p": "p1", "a": "o1", "x": 16000}, {"name": "SetMax", "p": "p1", "a": "o1", "x": 100000},
+    {"name": "Authorize", "a": "a1", "p": "p1", "x": 1000}, {"name": "Authorize", "a": "a2", "p": "g7", "x": 1000},
+    {"name": "Register", "p": "p2", "a": "o2", "x": 10000}, {"name": "SetCost", "p": "p1", "a": "o1", "x": 20, "y": 30},
+    {"name": "SetGas", "x": 1}, {"name": "Commit"}, {"name": "Fee", "x": 100003},
+]
+PARAM_CLASSES = ["pool-above-splitnum", "pool-equals-splitnum", "pool-below-splitnum", "splitnum-equals-K"]
+
+
+def split_class(st, K):
+    """which relation between the peer pool of the previous view and CandidateFeeSplitNum a settlement from state st meets"""
+    n = sum(1 for v in st["prev"].values() if v[0] in (1, 2))
+    eff = st["splitNum"] if st["splitNum"] >= 0 else st["candNum"]
+    if eff == K:
+        return "splitnum-equals-K"
+    return "pool-above-splitnum" if n > eff else "pool-equals-splitnum" if n == eff else "pool-below-splitnum"
+
+
+def sensitivity(ctx, c):
+    """the specification's C10 properties must notice the named deviation (pays beyond CandidateFeeSplitNum): TLC has to
+    find a counterexample in the SPEC with the deviation switched on -- otherwise the model never meets the circumstance"""
+    d = conf(**dict(c, tag=c["tag"] + "+dev", Dev=["PayBeyondSplitNum"]))
+    r = ctx.tlc("Governance_Gen", cfg="Governance_Gen.cfg", workers=1, files=gen_files(d, edges=False), timeout=3000)
+    ctx.log("TLC Governance %s: status %s violated %s, %d generated, %.0fs" % (d["tag"], r.status, r.violated, r.generated, r.wall))
+    if r.status != "violation":
+        ctx.infra("sensitivity run %s: the deviation PayBeyondSplitNum is not noticed by the specification's properties (%s)" % (d["tag"], r.status))
+        return None
+    return r.violated
+
+
 def configs(prop, thorough):
     """(tag, configuration, do_edge_replay) list"""
     if prop == "C11":
@@ -545,15 +595,25 @@ def configs(prop, thorough):
                 AuthTargets=["g7", "p1"], OpTargets=["g7", "p1"])
     demote = dict(base, Script=[full(a) for a in C10_DEMOTE_PREFIX], GenesisPos=DEMOTE_POS, GenesisOwners={"g1": "o2"}, AuthTargets=["g1", "p1"], OpTargets=["g1", "p1"])
     # gas address and DappFee as admin actions (setGasAddress, updateGlobalParam2): executeSplit2's dapp step
-    dapp = dict(base, Script=script + [full({"name": "SetGas", "x": 1})], GasVals=[0, 1], DappVals=[0, 20, 50],
-                Acts=["Commit", "Fee", "WithdrawFee", "SetGas", "SetDappFee"], FeeVals=[100003])
-    cs = [conf(tag="split-d2", MaxOps=2, **base), conf(tag="demotion-split-d2", MaxOps=2, **demote), conf(tag="dapp-d3", MaxOps=3, **dapp)]
+    dapp = dict(base, Script=script + [full({"name": "SetGas", "x": 1})], GasVals=[0, 1], Param2Vals=[[0, 49], [20, 49], [50, 49]],
+                Acts=["Commit", "Fee", "WithdrawFee", "SetGas", "SetParam2"], FeeVals=[100003])
+    params = dict(base, Script=[full(a) for a in C10_PARAMS_PREFIX], Cand=["p1", "p2"], Acts=["Commit", "WithdrawFee", "SetParam2", "SetParam"],
+                  Param2Vals=[[0, 8], [20, 9], [0, 7], [0, 6]], ParamVals=[[0, 100, 28]], sensitivity=True)
+    cs = [conf(tag="split-d2", MaxOps=2, **base), conf(tag="demotion-split-d2", MaxOps=2, **demote), conf(tag="dapp-d3", MaxOps=3, **dapp),
+          conf(tag="params-d3", MaxOps=3, **params)]
     if thorough:
         cs = [conf(tag="split-d3", MaxOps=3, invariants=BASE["invariants"] + " NoWrapBlack", **base),
               conf(tag="split-A100-dapp", MaxOps=2, A=100, B=0, DappFee=50, HasDapp=True, **base),
               conf(tag="split-A0-num8", MaxOps=2, A=0, B=100, SplitNum=8, Penalty=100, **base),
               conf(tag="demotion-split-d3", MaxOps=3, **demote),
-              conf(tag="dapp-d4", MaxOps=4, WithInvalid=False, **dapp)]
+              conf(tag="dapp-d4", MaxOps=4, WithInvalid=False, **dapp),
+              conf(tag="params-d4", MaxOps=4, WithInvalid=False, **dict(params, ParamVals=[[0, 100, 28], [100, 0, 49]])),
+              conf(tag="params-epochs-d3", MaxOps=3, **dict(
+                  params, Script=[full(a) for a in C10_PARAMS_PREFIX + [{"name": "SetParam2", "x": 0, "y": 8}, {"name": "Commit"},
+                                                                         {"name": "Fee", "x": 99991}]],
+                  Param2Vals=[[0, 9], [0, 7], [50, 8]], ParamVals=[[30, 70, 28], [60, 50, 49], [50, 50, 27]], sensitivity=False)),
+              conf(tag="params-stored-num8", MaxOps=3, SplitNum=8, A=30, B=70, CandNum=28, **dict(
+                  params, Param2Vals=[[0, 9], [20, 8]], ParamVals=[[100, 0, 28]], sensitivity=False))]
     return cs
 
 
@@ -615,14 +675,23 @@ def run_check(ctx, prop):
         with lock:
             return stage(files)
     ctx.stage_specs = locked_stage  # ctx.stage_specs hands out numbered directories and is not thread-safe by itself
-    with concurrent.futures.ThreadPoolExecutor(max_workers=max(1, min(len(cfgs), vf.NCPU // 2))) as ex:
+    sens = [c for c in cfgs if c.get("sensitivity")]
+    with concurrent.futures.ThreadPoolExecutor(max_workers=max(1, min(len(cfgs) + len(sens), vf.NCPU // 2))) as ex:
+        fs = [ex.submit(sensitivity, ctx, c) for c in sens]
         mcs = list(ex.map(lambda c: model_check(ctx, c), cfgs))
+        sens_res = [f.result() for f in fs]
     ctx.stage_specs = stage
+    classes = {}
     for c, mc in zip(cfgs, mcs):
         if not mc:
             continue
         r, edges, inits = mc
         acts_seen |= {(e["act"]["name"], e["act"].get("ok", True)) for e in edges}
+        for e in edges:
+            # settlements that split real income, by the relation pool size / CandidateFeeSplitNum they meet
+            if e["act"]["name"] == "Commit" and e["act"].get("ok", True) and e["from"]["ong"].get("gov", 0) > e["from"]["splitFee"]:
+                k = split_class(e["from"], c["K"])
+                classes[k] = classes.get(k, 0) + 1
         paths, ncov = ctx.cover(edges, inits, max_len=len(c["Script"]) + c["MaxOps"] + 2)
         if ncov != len(edges):
             ctx.infra("cover reached %d of %d edges" % (ncov, len(edges)))
@@ -641,10 +710,16 @@ def run_check(ctx, prop):
         if paths and len(ctx.samples) < 2:
             ctx.samples.append({"replayed_path": [to_step(s["act"]) for s in paths[len(paths) // 2]["steps"]]})
     # every action of the specification must have been taken (successfully) somewhere
-    need = ([a for a in C10_ACTS if a != "ReduceInit"] + ["SetGas", "SetDappFee"] if prop == "C10" else [a for a in ALL_ACTS if a not in ("SetCost", "Fee", "WithdrawFee") or not ctx.thorough])
+    need = ([a for a in C10_ACTS if a != "ReduceInit"] + ["SetGas", "SetParam2", "SetParam"] if prop == "C10" else [a for a in ALL_ACTS if a not in ("SetCost", "Fee", "WithdrawFee") or not ctx.thorough])
     missing = [a for a in need if (a, True) not in acts_seen]
     if missing and not ctx.infra_errors:
         ctx.infra("vacuous model run: actions never taken successfully: %s" % missing)
+    if prop == "C10":
+        cov["settlement_classes"] = classes
+        cov["sensitivity_runs"] = [v for v in sens_res if v]
+        lacking = [k for k in PARAM_CLASSES if not classes.get(k)]
+        if lacking and not ctx.infra_errors:
+            ctx.infra("vacuous model run: no settlement with income explored for %s" % lacking)
     # code -> spec: seeded random histories on the real contract, validated by TLC
     ct = conf(tag="trace", Cand=["p1", "p2"])
     nt, nst = (16, 120) if ctx.thorough else (5, 70)
